@@ -28,6 +28,7 @@ BSuper(g)    == [k |-> "super", g |-> g, n |-> 0]           \* super.g
 BSuperPlus(g, n) == [k |-> "superplus", g |-> g, n |-> n]   \* super.g + n
 BInSuper(g)  == [k |-> "insuper", g |-> g, n |-> 0]         \* "g" in super   (0 / 1 as number: if .. then 1 else 0)
 BSelfPlus(g, n) == [k |-> "selfplus", g |-> g, n |-> n]     \* self.g + n
+BStr         == [k |-> "conststr", g |-> "", n |-> 0]       \* "x"
 
 NoM == [p |-> FALSE, vis |-> ":", plus |-> FALSE, b |-> BK(0)]
 M(vis, plus, b) == [p |-> TRUE, vis |-> vis, plus |-> plus, b |-> b]
@@ -65,7 +66,15 @@ VisOf(c, f, s) ==
 Top(c) == Len(c) + 1
 Visible(c, f) == VisOf(c, f, Top(c)) = "visible"
 
-Add(x, y) == IF x.k = "err" THEN x ELSE IF y.k = "err" THEN y ELSE Num(x.n + y.n)
+\* `+` on field values: numbers add; as soon as a string takes part the result is the concatenation of the operands'
+\* texts (a number is written in decimal) - which is not associative: (1 + 2) + "x" = "3x", 1 + (2 + "x") = "12x", so
+\* the order in which a chain of `+:` values is folded is observable (family strplus)
+Str(sq) == [k |-> "str", s |-> sq]                 \* characters: 0..9 the digits, 10 the letter x
+RECURSIVE Digits(_)
+Digits(n) == IF n < 10 THEN <<n>> ELSE Digits(n \div 10) \o <<n % 10>>
+ToS(v) == IF v.k = "str" THEN v.s ELSE Digits(v.n)
+Add(x, y) == IF x.k = "err" THEN x ELSE IF y.k = "err" THEN y
+             ELSE IF x.k = "num" /\ y.k = "num" THEN Num(x.n + y.n) ELSE Str(ToS(x) \o ToS(y))
 
 RECURSIVE Get(_, _, _, _), EvalBody(_, _, _, _), AssertsOk(_, _)
 \* value of field f for a lookup bounded by s (s = Top(c): obj.f / self.f; s = j: super.f from layer j)
@@ -84,6 +93,7 @@ Read(c, f, s, fuel) == LET r == Get(c, f, s, fuel) IN IF r.k = "absent" THEN Err
 EvalBody(c, j, b, fuel) ==
   IF fuel = 0 THEN Err("fuel")
   ELSE CASE b.k = "const"     -> Num(b.n)
+         [] b.k = "conststr"  -> Str(<<10>>)
          [] b.k \in {"self", "dollar", "local"} -> Read(c, b.g, Top(c), fuel)
          [] b.k = "selfplus"  -> Add(Read(c, b.g, Top(c), fuel), Num(b.n))
          [] b.k = "super"     -> Read(c, b.g, j, fuel)
@@ -111,7 +121,7 @@ VisNames(c) == {f \in Names : Visible(c, f)}
 Manifest(c) ==
   IF HasAsserts(c) /\ ~AssertsOk(c, Fuel) THEN Err("assert")
   ELSE IF \E f \in VisNames(c) : Get(c, f, Top(c), Fuel).k = "err" THEN Err("field")
-  ELSE [k |-> "obj", fs |-> {[f |-> f, n |-> Get(c, f, Top(c), Fuel).n] : f \in VisNames(c)}]
+  ELSE [k |-> "obj", fs |-> {[f |-> f, n |-> LET r == Get(c, f, Top(c), Fuel) IN IF r.k = "str" THEN r.s ELSE r.n] : f \in VisNames(c)}]
 
 \* ------------------------------------------------------------------ call by need: the definitions a read runs
 \* Used(c, f, s): the member definitions <<layer, name>> whose bodies are evaluated when field f is read with
@@ -200,6 +210,8 @@ MembersA ==
   CASE Family = "vis"  -> {NoM} \cup {M(v, FALSE, BK(1)) : v \in VisSet} \cup {M(":", TRUE, BK(1))}
     [] Family = "plus" -> {NoM, M(":", FALSE, BK(1)), M(":", TRUE, BK(2)), M("::", TRUE, BK(4)),
                            M(":", TRUE, BSuperPlus("a", 8)), M(":", FALSE, BSuperPlus("a", 8))}
+    [] Family = "strplus" -> {NoM, M(":", FALSE, BK(1)), M(":", TRUE, BK(2)), M(":", TRUE, BStr), M(":", FALSE, BStr),
+                              M(":", TRUE, BSuperPlus("a", 8))}
     [] Family = "refs" -> {NoM, M(":", FALSE, BK(1)), M(":", FALSE, BSelf("b")), M(":", FALSE, BSuper("a")),
                            M(":", FALSE, BSuperPlus("a", 10)), M(":", FALSE, BInSuper("a")), M(":", FALSE, BLocal("b")),
                            M(":", TRUE, BSelfPlus("b", 100)), M("::", FALSE, BDollar("b"))}
@@ -207,7 +219,7 @@ MembersA ==
     [] Family \in {"omit", "assert"} -> {NoM, M(":", FALSE, BK(1)), M(":", TRUE, BK(2)), M("::", FALSE, BSuperPlus("a", 10))}
 MembersB ==
   CASE Family = "vis"  -> {NoM} \cup {M(v, FALSE, BK(5)) : v \in VisSet}
-    [] Family = "plus" -> {NoM, M(":", FALSE, BSelf("a"))}
+    [] Family \in {"plus", "strplus"} -> {NoM, M(":", FALSE, BSelf("a"))}
     [] Family = "refs" -> {NoM, M(":", FALSE, BK(5)), M(":", FALSE, BSelfPlus("a", 1000)), M("::", FALSE, BSuper("b")),
                            M(":", FALSE, BInSuper("a"))}
     [] Family = "locals" -> {NoM, M(":", FALSE, BK(5)), M(":", FALSE, BLocal("a")), M(":", FALSE, BSuperPlus("b", 100)), M(":", FALSE, BInSuper("a"))}
@@ -230,6 +242,7 @@ Seeds == IF Family = "omit" THEN PlainChains(2) ELSE NonEmptyLayers
 ExpandPlain(l1, n) ==
   {<<l1>>} \cup (IF n >= 2 THEN {<<l1, l2>> : l2 \in NonEmptyLayers} ELSE {})
            \cup (IF n >= 3 THEN {<<l1, l2, l3>> : l2 \in NonEmptyLayers, l3 \in NonEmptyLayers} ELSE {})
+           \cup (IF n >= 4 THEN {<<l1, l2, l3, l4>> : l2 \in NonEmptyLayers, l3 \in NonEmptyLayers, l4 \in NonEmptyLayers} ELSE {})
 \* refs: three layers only with a middle layer that does not define b (keeps the family tractable)
 ExpandRefs(l1) ==
   {<<l1>>} \cup {<<l1, l2>> : l2 \in NonEmptyLayers}
@@ -245,6 +258,7 @@ ExpandOmit(obj) ==
 Expand(s) == CASE Family = "omit" -> ExpandOmit(s)
                [] Family = "refs" -> ExpandRefs(s)
                [] Family = "assert" -> ExpandPlain(s, 2)
+               [] Family = "strplus" -> ExpandPlain(s, 4)
                [] OTHER -> ExpandPlain(s, 3)
 
 VARIABLE st
